@@ -213,8 +213,10 @@ fn child_main(args: &[String]) {
         } else {
             run_one(&inp)
         };
+        let elapsed = now_ms(t0).saturating_sub(STARTED_AT_MS.load(Ordering::SeqCst));
         STARTED_AT_MS.store(0, Ordering::SeqCst);
         let mut out = out;
+        out["ms"] = json!(elapsed);
         let hooked = PANICS.lock().unwrap().clone();
         if !hooked.is_empty() {
             out["hook"] = json!(hooked);
@@ -231,102 +233,178 @@ pub enum ChildRes {
     Done(J),
     /// the child died while this input was being processed
     Crashed(String),
-    Timeout,
+    /// no result within `limit_ms`; `confirmed`: neither when run again ALONE within `confirm_ms`
+    Timeout { limit_ms: u64, confirm_ms: u64, confirmed: bool },
     NotRun,
+    /// not scheduled: the run was stopped (three confirmed hangs, or the harness deadline)
+    Skipped,
+}
+
+/// How long the whole harness may run before it stops scheduling and writes what it has (the
+/// driver's own limit, cfg harness_timeout = 2400 s, is never reached), how many confirmed hangs
+/// end the run, and the per-input limit of the first pass.
+pub struct RunCtx {
+    pub deadline: Instant,
+    pub hangs: std::sync::atomic::AtomicUsize,
+    pub stopped_by_deadline: std::sync::atomic::AtomicBool,
+    pub first_limit_ms: u64,
+}
+const MAX_CONFIRMED_HANGS: usize = 3;
+
+impl RunCtx {
+    pub fn new(secs: u64) -> Self {
+        RunCtx {
+            deadline: Instant::now() + Duration::from_secs(secs),
+            hangs: std::sync::atomic::AtomicUsize::new(0),
+            stopped_by_deadline: std::sync::atomic::AtomicBool::new(false),
+            first_limit_ms: 20_000,
+        }
+    }
+    fn stop(&self) -> bool {
+        if Instant::now() > self.deadline {
+            self.stopped_by_deadline.store(true, Ordering::SeqCst);
+            return true;
+        }
+        self.hangs.load(Ordering::SeqCst) >= MAX_CONFIRMED_HANGS
+    }
+}
+
+/// One child process over `inputs[pos..end]`; returns (results by absolute index, culprit, how, timed_out).
+fn one_child(dir: &Path, tag: &str, inputs: &[J], pos: usize, end: usize, mode: &str, limit_ms: u64, hard_deadline: Instant,
+             out: &mut Vec<ChildRes>) -> (bool, Option<usize>, String, bool) {
+    let exe = std::env::current_exe().expect("exe");
+    let inf = dir.join(format!("child_{tag}_{mode}_{pos}.in"));
+    let ouf = dir.join(format!("child_{tag}_{mode}_{pos}.out"));
+    {
+        let mut f = std::io::BufWriter::new(std::fs::File::create(&inf).expect("in"));
+        for (k, inp) in inputs[pos..end].iter().enumerate() {
+            let mut j = inp.clone();
+            j["id"] = json!(pos + k);
+            writeln!(f, "{j}").unwrap();
+        }
+    }
+    let _ = std::fs::remove_file(&ouf);
+    let cmd = format!(
+        "ulimit -s 8192; exec '{}' child '{}' '{}' {} {}",
+        exe.display(), inf.display(), ouf.display(), mode, limit_ms
+    );
+    let mut ch = std::process::Command::new("sh")
+        .arg("-c")
+        .arg(&cmd)
+        .stdout(std::process::Stdio::null())
+        .stderr(std::process::Stdio::null())
+        .spawn()
+        .expect("spawn child");
+    let status = loop {
+        match ch.try_wait() {
+            Ok(Some(st)) => break Some(st),
+            Ok(None) => {
+                if Instant::now() > hard_deadline {
+                    let _ = ch.kill();
+                    let _ = ch.wait();
+                    break None;
+                }
+                std::thread::sleep(Duration::from_millis(15));
+            }
+            Err(_) => break None,
+        }
+    };
+    let text = std::fs::read_to_string(&ouf).unwrap_or_default();
+    let mut last_started: Option<usize> = None;
+    let mut finished_all = false;
+    let mut timed_out: Option<usize> = None;
+    for line in text.lines() {
+        if let Some(r) = line.strip_prefix("S ") {
+            last_started = r.trim().parse().ok();
+        } else if let Some(r) = line.strip_prefix("D ") {
+            let mut it = r.splitn(2, ' ');
+            let id: usize = it.next().unwrap().parse().unwrap_or(usize::MAX);
+            if let (true, Some(js)) = (id < out.len(), it.next()) {
+                out[id] = ChildRes::Done(serde_json::from_str(js).unwrap_or(J::Null));
+                if last_started == Some(id) {
+                    last_started = None;
+                }
+            }
+        } else if let Some(r) = line.strip_prefix("T ") {
+            timed_out = r.trim().parse().ok();
+        } else if line == "E" {
+            finished_all = true;
+        }
+    }
+    let _ = std::fs::remove_file(&inf);
+    let _ = std::fs::remove_file(&ouf);
+    let how = match status {
+        Some(st) => {
+            use std::os::unix::process::ExitStatusExt;
+            match (st.signal(), st.code()) {
+                (Some(s), _) => format!("killed by signal {s}"),
+                (None, Some(c)) => format!("exit code {c}"),
+                _ => "unknown".into(),
+            }
+        }
+        None => "killed by the parent (deadline)".into(),
+    };
+    (finished_all, timed_out.or(last_started), how, timed_out.is_some() || status.is_none())
+}
+
+/// the time the inputs next to `i` needed on this very run (median of up to 50 finished neighbours)
+fn neighbour_median_ms(out: &[ChildRes], i: usize) -> u64 {
+    let lo = i.saturating_sub(50);
+    let mut v: Vec<u64> = out[lo..i].iter().filter_map(|r| if let ChildRes::Done(j) = r { j["ms"].as_u64() } else { None }).collect();
+    if v.is_empty() {
+        return 0;
+    }
+    v.sort();
+    v[v.len() / 2]
 }
 
 /// Runs all inputs through child processes in `mode` ("thread" | "main"); a crash or hang is
 /// attributed to the input that was started and not finished, and a fresh child continues
-/// with the inputs after it.
-fn run_children_limit(dir: &Path, tag: &str, inputs: &[J], mode: &str, limit_ms: u64) -> Vec<ChildRes> {
-    let exe = std::env::current_exe().expect("exe");
+/// with the inputs after it. An input without a result within the first-pass limit is run again
+/// ALONE (to rule out load) with 20 x the median time of its neighbours (at least 10 s, at most
+/// 60 s); if it does not finish then either, it is a confirmed hang. After three confirmed
+/// hangs, or at the harness deadline, nothing more is scheduled.
+fn run_children(ctx: &RunCtx, dir: &Path, tag: &str, inputs: &[J], mode: &str) -> Vec<ChildRes> {
     let mut out = vec![ChildRes::NotRun; inputs.len()];
     let mut pos = 0usize;
-    let mut round = 0usize;
     const BATCH: usize = 4000;
     while pos < inputs.len() {
+        if ctx.stop() {
+            for r in out[pos..].iter_mut() {
+                *r = ChildRes::Skipped;
+            }
+            break;
+        }
         let end = (pos + BATCH).min(inputs.len());
-        let inf = dir.join(format!("child_{tag}_{mode}_{round}.in"));
-        let ouf = dir.join(format!("child_{tag}_{mode}_{round}.out"));
-        round += 1;
-        {
-            let mut f = std::io::BufWriter::new(std::fs::File::create(&inf).expect("in"));
-            for (k, inp) in inputs[pos..end].iter().enumerate() {
-                let mut j = inp.clone();
-                j["id"] = json!(pos + k);
-                writeln!(f, "{j}").unwrap();
-            }
-        }
-        let _ = std::fs::remove_file(&ouf);
-        let cmd = format!(
-            "ulimit -s 8192; exec '{}' child '{}' '{}' {} {}",
-            exe.display(), inf.display(), ouf.display(), mode, limit_ms
-        );
-        let mut ch = std::process::Command::new("sh")
-            .arg("-c")
-            .arg(&cmd)
-            .stdout(std::process::Stdio::null())
-            .stderr(std::process::Stdio::null())
-            .spawn()
-            .expect("spawn child");
-        let deadline = Instant::now() + Duration::from_secs(1200);
-        let status = loop {
-            match ch.try_wait() {
-                Ok(Some(st)) => break Some(st),
-                Ok(None) => {
-                    if Instant::now() > deadline {
-                        let _ = ch.kill();
-                        let _ = ch.wait();
-                        break None;
-                    }
-                    std::thread::sleep(Duration::from_millis(15));
-                }
-                Err(_) => break None,
-            }
-        };
-        let text = std::fs::read_to_string(&ouf).unwrap_or_default();
-        let mut last_started: Option<usize> = None;
-        let mut finished_all = false;
-        let mut timed_out: Option<usize> = None;
-        for line in text.lines() {
-            if let Some(r) = line.strip_prefix("S ") {
-                last_started = r.trim().parse().ok();
-            } else if let Some(r) = line.strip_prefix("D ") {
-                let mut it = r.splitn(2, ' ');
-                let id: usize = it.next().unwrap().parse().unwrap_or(usize::MAX);
-                if let (true, Some(js)) = (id < out.len(), it.next()) {
-                    out[id] = ChildRes::Done(serde_json::from_str(js).unwrap_or(J::Null));
-                    if last_started == Some(id) {
-                        last_started = None;
-                    }
-                }
-            } else if let Some(r) = line.strip_prefix("T ") {
-                timed_out = r.trim().parse().ok();
-            } else if line == "E" {
-                finished_all = true;
-            }
-        }
-        let _ = std::fs::remove_file(&inf);
-        let _ = std::fs::remove_file(&ouf);
+        let (finished_all, culprit, how, was_timeout) =
+            one_child(dir, tag, inputs, pos, end, mode, ctx.first_limit_ms, ctx.deadline + Duration::from_secs(30), &mut out);
         if finished_all {
             pos = end;
             continue;
         }
-        let how = match status {
-            Some(st) => {
-                use std::os::unix::process::ExitStatusExt;
-                match (st.signal(), st.code()) {
-                    (Some(s), _) => format!("killed by signal {s}"),
-                    (None, Some(c)) => format!("exit code {c}"),
-                    _ => "unknown".into(),
-                }
-            }
-            None => "killed by the parent after 600 s".into(),
-        };
-        let culprit = timed_out.or(last_started);
         match culprit {
             Some(id) if id < out.len() => {
-                out[id] = if timed_out.is_some() || status.is_none() { ChildRes::Timeout } else { ChildRes::Crashed(how) };
+                if was_timeout {
+                    if Instant::now() > ctx.deadline {
+                        // no time left to confirm: reported as a SUSPECTED hang
+                        out[id] = ChildRes::Timeout { limit_ms: ctx.first_limit_ms, confirm_ms: 0, confirmed: false };
+                    } else {
+                        let confirm_ms = (20 * neighbour_median_ms(&out, id)).clamp(10_000, 60_000);
+                        let mut single = vec![ChildRes::NotRun; inputs.len()];
+                        let (fin, _c, how2, to2) = one_child(dir, &format!("{tag}-confirm"), inputs, id, id + 1, mode, confirm_ms,
+                            Instant::now() + Duration::from_millis(confirm_ms + 20_000), &mut single);
+                        if fin {
+                            out[id] = single[id].clone();
+                        } else if to2 {
+                            out[id] = ChildRes::Timeout { limit_ms: ctx.first_limit_ms, confirm_ms, confirmed: true };
+                            ctx.hangs.fetch_add(1, Ordering::SeqCst);
+                        } else {
+                            out[id] = ChildRes::Crashed(how2);
+                        }
+                    }
+                } else {
+                    out[id] = ChildRes::Crashed(how);
+                }
                 pos = id + 1;
             }
             _ => {
@@ -338,25 +416,14 @@ fn run_children_limit(dir: &Path, tag: &str, inputs: &[J], mode: &str, limit_ms:
     out
 }
 
-/// 30 s per input; an input that does not finish is run again alone with 5 minutes before it is
-/// called a hang (a starved machine must not look like a hang of the engine).
-fn run_children(dir: &Path, tag: &str, inputs: &[J], mode: &str) -> Vec<ChildRes> {
-    let mut res = run_children_limit(dir, tag, inputs, mode, 30_000);
-    for i in 0..res.len() {
-        if matches!(res[i], ChildRes::Timeout) {
-            let again = run_children_limit(dir, &format!("{tag}-retry{i}"), &inputs[i..i + 1], mode, 300_000);
-            res[i] = again.into_iter().next().unwrap_or(ChildRes::Timeout);
-        }
-    }
-    res
-}
-
 fn res_json(r: &ChildRes) -> J {
     match r {
         ChildRes::Done(j) => j.clone(),
         ChildRes::Crashed(h) => json!({"crashed": h}),
-        ChildRes::Timeout => json!({"timeout": true}),
+        ChildRes::Timeout { limit_ms, confirm_ms, confirmed } =>
+            json!({"timeout": true, "first_pass_limit_ms": limit_ms, "alone_limit_ms": confirm_ms, "confirmed_alone": confirmed}),
         ChildRes::NotRun => json!({"not_run": true}),
+        ChildRes::Skipped => json!({"skipped": true}),
     }
 }
 
@@ -376,8 +443,12 @@ fn is_bad(r: &ChildRes) -> Option<String> {
             None
         }
         ChildRes::Crashed(h) => Some(format!("child process died ({h})")),
-        ChildRes::Timeout => Some("no result within the time limit (hang)".into()),
+        ChildRes::Timeout { limit_ms, confirm_ms, confirmed: true } =>
+            Some(format!("hang: no result within {limit_ms} ms, nor within {confirm_ms} ms when run again alone")),
+        ChildRes::Timeout { limit_ms, .. } =>
+            Some(format!("suspected hang (UNCONFIRMED: the harness deadline was reached before it could be run again alone): no result within {limit_ms} ms")),
         ChildRes::NotRun => Some("input could not be run (child died outside any input)".into()),
+        ChildRes::Skipped => None,
     }
 }
 
@@ -413,7 +484,7 @@ fn main() {
         std::fs::create_dir_all(&dir).unwrap();
         let crashes = |n: usize| -> bool {
             let src = build_recipe(&json!({"kind": kind, "n": n}));
-            let res = run_children(&dir, "thr", &[json!({"name": "t", "src": src})], mode);
+            let res = run_children(&RunCtx::new(3600), &dir, "thr", &[json!({"name": "t", "src": src})], mode);
             !matches!(res[0], ChildRes::Done(_))
         };
         if !crashes(hi) {
@@ -455,18 +526,26 @@ fn main() {
     let mut outcome_counts: std::collections::BTreeMap<String, usize> = Default::default();
     let mut nontrivial = 0usize;
     let mut bad_seen: std::collections::BTreeMap<String, usize> = Default::default();
+    let mut skipped = 0usize;
+    // internal deadline, well below the driver's harness_timeout (2400 s): at that point nothing more is
+    // scheduled and what has been observed is written out
+    let ctx = RunCtx::new(if thorough { 1800 } else { 780 });
     // the two stack configurations (and the skeleton family) run in parallel child processes
     let n_skel = if thorough { 6000 } else { 1200 };
     let cases = skel_cases(&mut rng, n_skel);
     let sj: Vec<J> = cases.iter().map(|c| json!({"name": "t", "src": c.text, "hooks": true})).collect();
     let (res_thread, res_main, res_skel) = std::thread::scope(|sc| {
-        let a = sc.spawn(|| run_children(&args.out, "oracle", &js, "thread"));
-        let b = sc.spawn(|| run_children(&args.out, "oracle", &js, "main"));
-        let c = sc.spawn(|| run_children(&args.out, "skel", &sj, "thread"));
+        let a = sc.spawn(|| run_children(&ctx, &args.out, "oracle", &js, "thread"));
+        let b = sc.spawn(|| run_children(&ctx, &args.out, "oracle", &js, "main"));
+        let c = sc.spawn(|| run_children(&ctx, &args.out, "skel", &sj, "thread"));
         (a.join().expect("thread run"), b.join().expect("main run"), c.join().expect("skel run"))
     });
     for (mode, res) in [("thread", res_thread), ("main", res_main)] {
         for (inp, r) in inputs.iter().zip(res.iter()) {
+            if matches!(r, ChildRes::Skipped) {
+                skipped += 1;
+                continue;
+            }
             meta.oracle_checks += 1;
             if let ChildRes::Done(j) = r {
                 let key = format!("{}:{}", mode, j["reg"].as_str().unwrap_or("?").split(':').take(2).collect::<Vec<_>>().join(":"));
@@ -503,15 +582,21 @@ fn main() {
     }
     meta.extra.insert("oracle_streams".into(), json!(stream_counts));
     meta.extra.insert("oracle_outcomes".into(), json!(outcome_counts));
-    meta.extra.insert("oracle_only_evaluations".into(), json!(inputs.len() * 2));
+    meta.extra.insert("oracle_only_evaluations".into(), json!(inputs.len() * 2 - skipped));
     meta.extra.insert("oracle_only_nontrivial".into(), json!(nontrivial));
     meta.extra.insert("bad_outcome_classes".into(), json!(bad_seen));
+    meta.extra.insert("confirmed_hangs".into(), json!(ctx.hangs.load(Ordering::SeqCst)));
+    meta.extra.insert("stopped_at_harness_deadline".into(), json!(ctx.stopped_by_deadline.load(Ordering::SeqCst)));
 
     // ---------------- model-side correspondence on the skeleton grammar
     let hdr = "From TeraV Require Import Model.ParseDepth Corr.CorrC06.";
     let mut sink = Sink::new(&args.out, "skel", hdr, "check_skel");
     let res = res_skel;
     for (c, r) in cases.iter().zip(res.iter()) {
+        if matches!(r, ChildRes::Skipped) {
+            skipped += 1;
+            continue;
+        }
         meta.oracle_checks += 1;
         if let Some(what) = is_bad(r) {
             meta.oracle_fail(&format!("registration did not end in Ok or Err: {what}"), None,
@@ -531,6 +616,7 @@ fn main() {
         let nontriv = c.toks.len() >= 8;
         sink.push(g, desc, nontriv, None, &[c.kind, if ok { "accepted" } else { "rejected" }]);
     }
+    meta.extra.insert("inputs_not_scheduled_after_stop".into(), json!(skipped));
     meta.families.push(sink.finish());
     meta.write(&args.out);
 }
@@ -556,7 +642,7 @@ fn replay(rp: &PathBuf, out: &Path) {
     }
     std::fs::create_dir_all(out).ok();
     for mode in ["thread", "main"] {
-        let res = run_children(out, "replay", &[j.clone()], mode);
+        let res = run_children(&RunCtx::new(3600), out, "replay", &[j.clone()], mode);
         println!("{mode}: {}", res_json(&res[0]));
     }
 }
@@ -570,7 +656,7 @@ fn probe_main(a: &[String]) {
     let src = build_recipe(&json!({"kind": kind, "n": n}));
     let dir = std::env::temp_dir().join(format!("c06-probe-{}", std::process::id()));
     std::fs::create_dir_all(&dir).unwrap();
-    let res = run_children(&dir, "probe", &[json!({"name": "t", "src": src})], mode);
+    let res = run_children(&RunCtx::new(3600), &dir, "probe", &[json!({"name": "t", "src": src})], mode);
     println!("{kind} n={n} len={} {mode}: {}", src.len(), res_json(&res[0]));
     let _ = std::fs::remove_dir_all(&dir);
 }
